@@ -359,18 +359,24 @@ def worker(job):
     extra_bad = []
     nclaims = 0
     nstates = 0
-    for seed in job['seeds']:
+    plan = [('random', seed) for seed in job['seeds']] + [('family', i) for i in job.get('family', [])]
+    for kind_, seed in plan:
         rnd = random.Random(seed)
         rec = trace.Recorder(app)
         rec.new_history()
         s = scenarios.S(rec, rnd)
-        build_state(s, rnd)
+        if kind_ == 'family':
+            build_family_state(s, seed)
+            fam = family_queries()
+        else:
+            build_state(s, rnd)
+            fam = None
         st = rec.state()[0]
         nstates += 1
         tag = 'nested-sharing-provider' if has_nested_sharing(st) else ''
         app.snapshot('cand')
-        for qi in range(job['nq']):
-            if mode == 'C13' or (mode == 'C03' and rnd.random() < 0.15):
+        for qi in range(len(fam) if fam else job['nq']):
+            if fam is None and (mode == 'C13' or (mode == 'C03' and rnd.random() < 0.15)):
                 f = gen_filter(rnd, st)
                 m, p, h, b = render_filter(f)
                 status, rh, rb = app.call(m, p, h, b)
@@ -383,7 +389,7 @@ def worker(job):
                               'status': status, 'body': body})
                 meta[lid] = {'path': p, 'tag': tag, 'seed': seed, 'raw': rb[:300].decode('utf-8', 'replace')}
                 continue
-            q = gen_query(rnd, st)
+            q = fam[qi] if fam else gen_query(rnd, st)
             status, body, raw, p, rb = _ac(app, q)
             lid = len(lines) + 1
             lines.append({'id': lid, 'kind': 'ac', 'pre': st, 'q': q,
@@ -452,3 +458,66 @@ def worker(job):
     return {'n': len(lines), 'states': nstates, 'claims': nclaims, 'bad': bad,
             'between': info_between, 'keys': sorted(keys), 'hist': hist, 't_tlc': wall,
             'sample': [{'query': meta[1]['path'], 'status': lines[0]['status']}] if lines else []}
+
+
+# ---------------------------------------------------------------------------
+# systematic small-scope family: two compute trees and one sharing provider
+# in every arrangement of two aggregates, crossed with a query family that
+# exercises member_of / in_tree / group order on both kinds of groups
+
+def family_size():
+    return 4 * 3 * 3
+
+
+def build_family_state(s, idx):
+    subsets = [[], ['agg1'], ['agg2'], ['agg1', 'agg2']]
+    a_cn1 = subsets[idx % 4]
+    a_cn2 = [[], ['agg1'], ['agg2']][(idx // 4) % 3]
+    a_ss = [['agg1'], ['agg2'], ['agg1', 'agg2']][(idx // 12) % 3]
+    s.do(op='rc_post', v=39, name='CUSTOM_RC1')
+    s.do(op='trait_put', v=39, name='CUSTOM_T1')
+    s.mk('p1')
+    s.mk('p2', 'p1')
+    s.mk('p3')
+    s.mk('p4')
+    s.invs('p1', VCPU=8, MEMORY_MB=16)
+    s.invs('p2', CUSTOM_RC1=4, VCPU=2)
+    s.invs('p3', VCPU=8, DISK_GB=20)
+    s.invs('p4', DISK_GB=100)
+    s.do(op='rp_traits_put', v=39, u='p4', gen=s.gen('p4'), traits=[SHARING])
+    s.do(op='rp_traits_put', v=39, u='p1', gen=s.gen('p1'), traits=['HW_CPU_X86_AVX'])
+    for u, ags in (('p1', a_cn1), ('p3', a_cn2), ('p4', a_ss)):
+        if ags:
+            s.do(op='agg_put', v=39, u=u, gen=s.gen(u), aggs=ags)
+
+
+def family_queries():
+    def g(sfx, res, member_of=None, forbidden_aggs=None, in_tree='', required=None):
+        return {'suffix': sfx, 'res': res, 'required': [_setrec(r) for r in (required or [])],
+                'forbidden': {}, 'member_of': [_setrec(m) for m in (member_of or [])],
+                'forbidden_aggs': _setrec(forbidden_aggs or []), 'in_tree': in_tree}
+
+    def q(groups, policy='', v=39, **kw):
+        d = {'op': 'ac_list', 'v': v, 'groups': groups, 'policy': policy, 'root_required': {},
+             'root_forbidden': {}, 'same_subtree': [], 'limit': -1}
+        d.update(kw)
+        return d
+    out = [q([g('', {'VCPU': 1, 'DISK_GB': 10})]),
+           q([g('', {'VCPU': 1, 'DISK_GB': 10})], v=28),
+           q([g('', {'VCPU': 1, 'DISK_GB': 10, 'CUSTOM_RC1': 1})]),
+           q([g('1', {'VCPU': 1}), g('2', {'DISK_GB': 5})], policy='isolate'),
+           q([g('1', {'VCPU': 1}), g('2', {'DISK_GB': 5})], policy='none', v=34),
+           q([g('', {'VCPU': 1}, in_tree='p1'), g('1', {'DISK_GB': 5})]),
+           q([g('', {'DISK_GB': 5}), g('1', {'VCPU': 1}, in_tree='p3')]),
+           q([g('', {'VCPU': 1}, required=[['HW_CPU_X86_AVX']]), g('1', {'DISK_GB': 5})]),
+           q([g('', {'VCPU': 1, 'DISK_GB': 5})], root_required=_setrec(['HW_CPU_X86_AVX']))]
+    for a in ('agg1', 'agg2'):
+        out += [q([g('', {'VCPU': 1}, member_of=[[a]]), g('1', {'DISK_GB': 10})]),
+                q([g('1', {'DISK_GB': 10}), g('', {'VCPU': 1}, member_of=[[a]])]),
+                q([g('', {'VCPU': 1, 'DISK_GB': 10}, member_of=[[a]])]),
+                q([g('', {'DISK_GB': 10}), g('1', {'VCPU': 1}, member_of=[[a]])]),
+                q([g('', {'VCPU': 1}), g('1', {'DISK_GB': 10}, member_of=[[a]])]),
+                q([g('', {'VCPU': 1, 'DISK_GB': 10}, forbidden_aggs=[a])]),
+                q([g('', {'VCPU': 1}, forbidden_aggs=[a]), g('_D', {'DISK_GB': 10})]),
+                q([g('', {'VCPU': 1}, member_of=[['agg1', 'agg2']]), g('1', {'DISK_GB': 10}, forbidden_aggs=[a])])]
+    return out
